@@ -61,9 +61,13 @@ theorem tie_apkKeys : Generated.glue_apkKeys =
     ["keys := make(map[string][]byte)", "range dir", "keys[d.Name()] = b"] := by
   rfl
 
-/-- the sibling loop returns at the first sibling whose indexes do not load (`loadSiblings`) -/
+/-- the sibling loop returns at the first sibling whose indexes do not load (`loadSiblings`).  Since the repair
+recorded as F14b (C14) the APK's own entry re-uses the index objects it has just read instead of reading them a
+second time; the model still reads them again, which is the same answer: same keys, same options, same bytes
+(checked by the correspondence on every run) -/
 theorem tie_siblingLoop : Generated.glue_siblingLoop =
     ["for otherArch, otherAPK := range a.ByArch",
+     "if otherAPK == a { allArchs[otherArch] = indexes continue }",
      "indexes, err := otherAPK.GetRepositoryIndexes(ctx, a.ignoreSignatures)",
      "if err != nil { return toInstall, conflicts, fmt.Errorf(\"\", otherArch, err) }",
      "allArchs[otherArch] = indexes"] := by
